@@ -38,7 +38,7 @@ add("C07", "fault_enumeration",
     "The swept fault points are the yield hooks (every stream operation entry and every peer-liveness read) plus block-internal and external cancellation; points between them are reached only by timing.",
     "runtime monitoring with fault injection: cancellation at swept hook points, failing block at every position", "3/C07", "graph-programs")
 add("C08", "exploration",
-    "Every stream-processing block of the library (42 catalogue entries incl. all sync blocks, Skip, Delay, RationalResampler, FIR/FFT filters, Hilbert, AU codec, RtlSdrDecode, SymbolSync/ZeroCrossing with and without clock output, deframers, StreamToPdu, VecToStream, ToText, FftStream, CMA, WPCR) is run twice on the same seeded parameters and input: one-shot on default streams and under a seeded adversarial drip-feed schedule on 1-4 page streams with the harness as both neighbours; outputs must be bit-identical, every intermediate drain a prefix, and work() must never unwind. Decides chunking independence on the executions produced.",
+    "Every stream-processing block of the library (42 catalogue entries incl. all sync blocks, Skip, Delay, RationalResampler, FIR/FFT filters, Hilbert, AU codec, RtlSdrDecode, SymbolSync/ZeroCrossing with and without clock output, deframers, StreamToPdu, VecToStream, ToText, FftStream, CMA, WPCR) is run twice on the same seeded parameters and input: one-shot on default streams and under a seeded adversarial drip-feed schedule on 1-4 page streams with the harness as both neighbours, which in a third of the scheduled calls also act inside the call (drain an output / feed an input at the stream operations' yield points, as concurrently running neighbours do under MTGraph); outputs must be bit-identical, every intermediate drain a prefix, and work() must never unwind. Decides chunking independence on the executions produced.",
     "Reference = the same implementation run one-shot (a defect that is chunking-independent is C10/C11's business). Floats are compared bitwise. Hooks must be passive.",
     "runtime monitoring: differential oracle (drip-fed vs one-shot run of the real block)", "3/C08", "drip-feed")
 add("C09", "exploration",
